@@ -499,10 +499,9 @@ func (pkgGen *HttpPackageGenerator) updateMiddlewareReg(router interface{}, midd
 	}
 
 	for _, mw := range middlewareList {
+		// both middleware templates name the function "<middleware>Mw", whatever
+		// naming style was used to derive <middleware>
 		mwNamePattern := fmt.Sprintf(" %sMw", mw)
-		if pkgGen.SnakeStyleMiddleware {
-			mwNamePattern = fmt.Sprintf(" %s_mw", mw)
-		}
 		if bytes.Contains(file, []byte(mwNamePattern)) {
 			continue
 		}
